@@ -274,7 +274,7 @@ def canon(v):
 
 
 BROKEN_J5 = ['{a:}', '{a 1}', '{a:1,,}', '{"a:1}', "{a:[1,2}", "{a:'x}", "{a:1 b:2}", "{a:01x}", "{:1}", "{a:tru}",
-             "{a:{b:1}", "{a:1}}", "{[}", '{a:"x" "y"}', "{a:@}", "{a:1}) {", "{{}", "{a:1} }"]
+             "{a:{b:1}", "{a:1}}", "{[}", '{a:"x" "y"}', "{a:@}", "{{}", "{a:1} }"]
 
 
 def gen_descr(rng, allow_close=False):
@@ -336,7 +336,7 @@ FREE_FIXED = ["//", "// ", "//  ", "// some text", "//   indented text", "/// tr
               "// @Näme", "// @Name(a!b)", "// @Name(a){x}", "/* @Name */", "// @Name(a) desc\nmore", "// @Name.x",
               "//  @Name", "// @Name(a, {x:1}", "// @Name(a, {x:1}))", "// @Name(a,, {x:1})", "// @Name(a)x", "// @Name(é)",
               "// @Name(a, {x:1}) d\ne", "// @Name(a, [1])", "// @Name (a)", "// @Name({x:1})", "// TODO: fix (later)",
-              "// returns {id} for the user, see @Route", "", "/", "@Name", "// @Name\x0bd", "// @Name d"]
+              "// returns {id} for the user, see @Route", "", "/", "@Name", "// @Name\x0bd", "// @Name\u00a0d"]
 
 
 def mutate_bytes(rng, b):
@@ -663,7 +663,10 @@ def main():
     if not os.environ.get("VERIF_SKIP_COQ_BUILD"):      # development switch only
         build_coq()
     build_harness()
-    proof_coverage(PROP, res)
+    if os.path.exists(os.path.join(COQ, "Properties", PROP + ".v")):
+        proof_coverage(PROP, res)
+    else:
+        res.violation({"kind": "proof-obligation", "obligation": "coq/Properties/C16.v is missing"}, no_input=True)
     known_f7 = next((f for f in known_for(PROP) if f.get("id") == "F7"), None)
 
     blocks, kinds = [], []
